@@ -49,7 +49,7 @@ GROUPS = {
  'C01': ['Channel_put','Channel_PutMessage','Channel_PutMessageDeferred','Channel_StartInFlightTimeout','Channel_StartDeferredTimeout','Channel_pushInFlightMessage','Channel_processInFlightQueue','Channel_processDeferredQueue','Channel_RequeueMessage','Channel_TouchMessage','Topic_messagePump','Topic_put','Topic_PutMessage','Topic_PutMessages','Topic_GetChannel','pump_deliver','pump_loop_head'],
  'C02': ['Channel_FinishMessage','Channel_popInFlightMessage','Channel_pushInFlightMessage','Channel_TouchMessage','Channel_RequeueMessage','Channel_StartInFlightTimeout','Channel_processInFlightQueue','protocolV2_FIN','protocolV2_REQ','protocolV2_TOUCH','pump_deliver','pump_loop_head'],
  'C03': ['clientV2_SetReadyCount','clientV2_IsReadyForMessages','clientV2_SendingMessage','clientV2_FinishedMessage','clientV2_TimedOutMessage','clientV2_RequeuedMessage','clientV2_StartClose','protocolV2_CLS','pump_not_ready','pump_sources','Topic_messagePump'],
- 'C05': ['Channel_flush','Channel_exit','Topic_flush','Topic_exit','NSQD_Exit','Channel_RequeueMessage','Channel_processInFlightQueue','Channel_processDeferredQueue','Channel_PutMessage','Topic_PutMessage','Topic_PutMessages'],
+ 'C05': ['Topic_messagePump','Channel_flush','Channel_exit','Topic_flush','Topic_exit','NSQD_Exit','Channel_RequeueMessage','Channel_processInFlightQueue','Channel_processDeferredQueue','Channel_PutMessage','Topic_PutMessage','Topic_PutMessages'],
  'C08': ['Channel_Empty','Channel_empty','Channel_exit','Channel_AddClient','Channel_RemoveClient','Topic_DeleteExistingChannel','NSQD_DeleteExistingTopic','NSQD_GetTopic','protocolV2_FIN'],
  'C12': ['NSQD_GetTopic'],
  'C13': ['clientV2_SendingMessage','clientV2_FinishedMessage','clientV2_TimedOutMessage','clientV2_RequeuedMessage','Channel_processInFlightQueue','Channel_FinishMessage','Channel_PutMessage','Channel_PutMessageDeferred','Topic_PutMessage','Topic_PutMessages','protocolV2_FIN','protocolV2_REQ'],
